@@ -27,11 +27,21 @@ TRACED_SUFFIXES = (
     "antlr4/atn/ATNConfigSet.py",
 )
 OPCODE_SUFFIXES = ("explorerscript/ssb_converting/decompiler/graph_building/graph_utils.py",)
+# code that reads / writes state shared between calls: the decompiler's memo table, ANTLR's DFA / context caches
+SHARED_SUFFIXES = (
+    "explorerscript/ssb_converting/decompiler/graph_building/graph_utils.py",
+    "antlr4/dfa/DFA.py",
+    "antlr4/PredictionContext.py",
+    "antlr4/atn/ATNConfigSet.py",
+)
 
 
 class Scheduler:
     def __init__(self, jobs, schedule, max_switches=4000):
-        """jobs: list of callables; schedule: list of [thread choice, run length]"""
+        """jobs: list of callables; schedule: list of [thread choice, run length] or [thread choice, run length, mode]:
+        mode 0 counts every yield point; mode 1 counts only yield points inside shared-state code (the thread is parked
+        right there); mode 2 = mode 1, and the thread then stays parked until another thread has finished its job (a long
+        preemption in the middle of an access to shared state)"""
         self.jobs = jobs
         self.n = len(jobs)
         self.schedule = list(schedule)
@@ -42,6 +52,8 @@ class Scheduler:
         self.errors = [None] * self.n
         self.current = None
         self.budget = 0
+        self.mode = 0
+        self.frozen: set[int] = set()
         self.switches = 0
         self.yield_points = 0
         self.in_traced = [0] * self.n  # yield points seen per thread
@@ -58,15 +70,20 @@ class Scheduler:
 
     # -- choosing who runs
     def _next_choice(self):
-        runnable = [i for i in range(self.n) if not self.done[i]]
+        runnable = [i for i in range(self.n) if not self.done[i] and i not in self.frozen]
+        if not runnable:
+            self.frozen.clear()
+            runnable = [i for i in range(self.n) if not self.done[i]]
         if not runnable:
             return None, 0
         if self.schedule and self.switches < self.max_switches:
             # the schedule is reused cyclically until the switch cap is reached
-            c, length = self.schedule[self.pos % len(self.schedule)]
+            entry = self.schedule[self.pos % len(self.schedule)]
             self.pos += 1
-            return runnable[c % len(runnable)], max(1, length)
+            self.mode = entry[2] if len(entry) > 2 else 0
+            return runnable[entry[0] % len(runnable)], max(1, entry[1])
         # cap reached: finish the remaining threads one after the other
+        self.mode = 0
         return runnable[0], 10**9
 
     def _switch_from(self, tid, finished=False):
@@ -86,13 +103,17 @@ class Scheduler:
         if not finished:
             self.sems[tid].acquire()
 
-    def _yield_point(self, tid):
+    def _yield_point(self, tid, shared=False):
         self.yield_points += 1
         self.in_traced[tid] += 1
         if self._lock_probe is not None and self._lock_probe.locked():
             return  # never park a thread that holds the module's lock
+        if self.mode and not shared:
+            return
         self.budget -= 1
         if self.budget <= 0 and self.switches < self.max_switches:
+            if self.mode == 2:
+                self.frozen.add(tid)
             self._switch_from(tid)
 
     # -- tracing
@@ -104,6 +125,11 @@ class Scheduler:
                 sched._yield_point(tid)
             return local
 
+        def local_shared(frame, event, arg):
+            if event == "line" or event == "opcode":
+                sched._yield_point(tid, True)
+            return local_shared
+
         def glob(frame, event, arg):
             if event != "call":
                 return None
@@ -112,7 +138,7 @@ class Scheduler:
                 if fn.endswith(suf):
                     if fn.endswith(OPCODE_SUFFIXES):
                         frame.f_trace_opcodes = True
-                    return local
+                    return local_shared if fn.endswith(SHARED_SUFFIXES) else local
             return None
 
         return glob
@@ -127,6 +153,7 @@ class Scheduler:
         finally:
             sys.settrace(None)
             self.done[tid] = True
+            self.frozen.clear()  # a job has finished: long preemptions end
             self._switch_from(tid, finished=True)
 
     def run(self, timeout=600):
